@@ -63,6 +63,11 @@ pub struct Gen<'t, 'c> {
     in_args: usize,
     shared_names: Vec<String>,
     consts: Vec<(String, Ty)>,
+    /// a DIM SHARED whole-number variable that serves as FOR counter in subprograms and in the main module
+    shared_counter: Option<(String, Ty)>,
+    shared_counter_busy: bool,
+    /// while set, no call is generated (body of a loop that counts in the shared counter)
+    no_calls: usize,
 }
 
 const SMALL: [i64; 12] = [0, 1, 2, 3, 4, 5, 7, 8, 10, 12, 16, 20];
@@ -91,6 +96,9 @@ impl<'t, 'c> Gen<'t, 'c> {
             in_args: 0,
             shared_names: vec![],
             consts: vec![],
+            shared_counter: None,
+            shared_counter_busy: false,
+            no_calls: 0,
         }
     }
 
@@ -197,7 +205,7 @@ impl<'t, 'c> Gen<'t, 'c> {
     /// Numeric expression; `want` biases the static type but does not force it.
     pub fn num_expr(&mut self, want: Ty, depth: usize) -> Expr {
         let leaf = depth == 0 || self.t.chance(2, 5);
-        if self.cfg.procs && depth > 0 && self.t.chance(1, 6) {
+        if self.cfg.procs && self.no_calls == 0 && depth > 0 && self.t.chance(1, 6) {
             if let Some(e) = self.fn_call(want, depth - 1) {
                 return e;
             }
@@ -232,7 +240,8 @@ impl<'t, 'c> Gen<'t, 'c> {
                 }
             };
         }
-        match self.t.choose(10) {
+        match self.t.choose(11) {
+            10 => self.logic_expr(depth - 1),
             0 | 1 | 2 => {
                 let a = self.num_expr(want, depth - 1);
                 let b = self.num_expr(want, depth - 1);
@@ -281,6 +290,47 @@ impl<'t, 'c> Gen<'t, 'c> {
         }
     }
 
+    /// AND / OR on numeric operands of any type mix (worked on 16 bits only if both are INTEGER, else on the 32 bits
+    /// of a LONG after rounding), NOT on a whole-number operand. Operand values reach beyond the INTEGER range on
+    /// either side; fractions are never exact halves.
+    fn logic_expr(&mut self, depth: usize) -> Expr {
+        if self.t.chance(1, 5) {
+            let a = self.whole_expr(depth);
+            return Expr::Paren(Box::new(Expr::Un(UnOp::Not, Box::new(self.paren_if_binary(a)))));
+        }
+        let lt = self.num_ty();
+        let rt = self.num_ty();
+        let a = self.logic_operand(lt, depth);
+        let b = self.logic_operand(rt, depth);
+        let op = *self.t.pick(&[BinOp::And, BinOp::Or]);
+        Expr::Paren(Box::new(Expr::Bin(op, Box::new(self.paren_if_binary(a)), Box::new(self.paren_if_binary(b)))))
+    }
+
+    fn logic_operand(&mut self, ty: Ty, depth: usize) -> Expr {
+        match self.t.choose(4) {
+            0 => {
+                // a literal of that type; wide types carry values beyond the INTEGER range
+                let neg = self.t.chance(1, 4);
+                let e = match ty {
+                    Ty::Int => Expr::Lit(Lit::Whole(*self.t.pick(&[3i64, 1, 7, 255, 32767, 12, 0]))),
+                    Ty::Long => Expr::Lit(Lit::Whole(*self.t.pick(&[65537i64, 40000, 32768, 100001, 2147483647, 65536]))),
+                    Ty::Single => Expr::Lit(Lit::Frac { num: *self.t.pick(&[100001i64, 5, 65537, 40000, 3]) * 4 + *self.t.pick(&[0i64, 1, 3]), shift: 2, double: false }),
+                    Ty::Double => Expr::Lit(Lit::Frac { num: *self.t.pick(&[65537i64, 6, 100000, 2147483647, 70000]) * 4 + *self.t.pick(&[0i64, 1, 3]), shift: 2, double: true }),
+                    Ty::Str => unreachable!(),
+                };
+                if neg { Expr::Un(UnOp::Neg, Box::new(e)) } else { e }
+            }
+            1 | 2 => Expr::Load(self.readable_num(ty)),
+            _ => {
+                if depth > 0 && ty.is_whole() {
+                    self.whole_expr(depth - 1)
+                } else {
+                    self.num_lit(ty)
+                }
+            }
+        }
+    }
+
     /// Expression whose static type is INTEGER or LONG.
     fn whole_expr(&mut self, depth: usize) -> Expr {
         if depth == 0 || self.t.chance(1, 2) {
@@ -319,6 +369,14 @@ impl<'t, 'c> Gen<'t, 'c> {
     }
 
     pub fn str_expr(&mut self, depth: usize) -> Expr {
+        if self.cfg.procs && self.no_calls == 0 && depth > 0 && self.t.chance(1, 6) {
+            let cands: Vec<usize> = self.callable.iter().cloned().filter(|p| self.prog.procs[*p].ret == Some(Ty::Str)).collect();
+            if !cands.is_empty() {
+                let p = cands[self.t.choose(cands.len())];
+                let args = self.call_args(p, depth - 1);
+                return Expr::Call(p, args);
+            }
+        }
         if depth == 0 || self.t.chance(1, 2) {
             return if self.t.chance(1, 2) { Expr::Lit(Lit::Str(self.t.pick(&WORDS).to_string())) } else { Expr::Load(self.scalar(Ty::Str, false)) };
         }
@@ -524,7 +582,7 @@ impl<'t, 'c> Gen<'t, 'c> {
             out.push(self.error_stmt());
             return;
         }
-        if self.cfg.procs && self.t.chance(1, 5) {
+        if self.cfg.procs && self.no_calls == 0 && self.t.chance(1, 5) {
             if let Some(st) = self.sub_call() {
                 out.push(st);
                 return;
@@ -555,9 +613,21 @@ impl<'t, 'c> Gen<'t, 'c> {
             9 => {
                 // single-line IF
                 let c = self.cond(1);
-                let then_ = if self.t.chance(1, 2) { self.print_stmt() } else { self.assign_stmt() };
-                let else_ = if self.t.chance(1, 3) { Some(Box::new(self.print_stmt())) } else { None };
-                out.push(Stmt::IfLine { cond: c, then_: Box::new(then_), else_ });
+                // each part is one simple statement, now and then several joined by colons
+                let mut then_ = vec![if self.t.chance(1, 2) { self.print_stmt() } else { self.assign_stmt() }];
+                while then_.len() < 3 && self.t.chance(1, 4) {
+                    then_.push(if self.t.chance(1, 2) { self.print_stmt() } else { self.assign_stmt() });
+                }
+                let else_ = if self.t.chance(1, 3) {
+                    let mut e = vec![self.print_stmt()];
+                    while e.len() < 3 && self.t.chance(1, 3) {
+                        e.push(if self.t.chance(1, 2) { self.print_stmt() } else { self.assign_stmt() });
+                    }
+                    Some(e)
+                } else {
+                    None
+                };
+                out.push(Stmt::IfLine { cond: c, then_, else_ });
             }
             10 | 11 | 12 => {
                 let arms_n = 1 + self.t.choose(3);
@@ -648,7 +718,20 @@ impl<'t, 'c> Gen<'t, 'c> {
     fn for_stmt(&mut self, depth: usize) -> Stmt {
         let cty = *self.t.pick(&[Ty::Int, Ty::Int, Ty::Long, Ty::Single, Ty::Double]);
         let cty = if self.cfg.floats { cty } else { Ty::Int };
-        let var = self.fresh_counter(cty);
+        // now and then the loop counts in a DIM SHARED variable (also from inside subprograms); its body makes no calls,
+        // so that no other activation moves the counter
+        let use_shared = self.shared_counter.is_some() && !self.shared_counter_busy && self.t.chance(1, 4);
+        let (var, cty) = if use_shared {
+            let (n, t) = self.shared_counter.clone().unwrap();
+            let v = self.scope.iter().find(|v| v.name == n).expect("shared counter in scope").clone();
+            (LValue { name: v.name.clone(), var: v.idx, index: vec![], fields: vec![], sty: v.sty.clone() }, t)
+        } else {
+            (self.fresh_counter(cty), cty)
+        };
+        if use_shared {
+            self.shared_counter_busy = true;
+            self.no_calls += 1;
+        }
         let from_v = *self.t.pick(&[1i64, 0, 2, 3, -1, 5]);
         let len = self.t.choose(4) as i64; // iterations - 1 (or empty loop when reversed)
         let step_kind = self.t.choose(6);
@@ -681,6 +764,10 @@ impl<'t, 'c> Gen<'t, 'c> {
         self.depth_in_loops += 1;
         let body = self.block_or_empty(depth + 1, 3);
         self.depth_in_loops -= 1;
+        if use_shared {
+            self.shared_counter_busy = false;
+            self.no_calls -= 1;
+        }
         let next_names = self.t.chance(1, 3);
         Stmt::For { var, from, to, step, body, next_names }
     }
@@ -872,13 +959,23 @@ impl<'t, 'c> Gen<'t, 'c> {
             let idx = self.add_var(name.clone(), STy::B(ty), vec![], false);
             self.prog.vars[idx].shared = true;
             self.shared_names.push(name.clone());
-            prelude.push(Stmt::Dim(Dim { var: idx, name, bounds: vec![], explicit_lower: false, sty: STy::B(ty), extended: false, shared: true }));
+            prelude.push(Stmt::Dim(Dim { var: idx, name, bounds: vec![], explicit_lower: false, sty: STy::B(ty), extended: false, shared: true, redim: 0 }));
+        }
+        // a SHARED loop counter (reserved: only FOR statements write it)
+        if self.t.chance(1, 2) {
+            let ty = *self.t.pick(&[Ty::Int, Ty::Long, Ty::Int, Ty::Single]);
+            let name = format!("GK{}", ty.suffix());
+            let idx = self.add_var(name.clone(), STy::B(ty), vec![], true);
+            self.prog.vars[idx].shared = true;
+            self.shared_names.push(name.clone());
+            self.shared_counter = Some((name.clone(), ty));
+            prelude.push(Stmt::Dim(Dim { var: idx, name, bounds: vec![], explicit_lower: false, sty: STy::B(ty), extended: false, shared: true, redim: 0 }));
         }
         // signatures
         let nprocs = 1 + self.t.choose(4);
         for k in 0..nprocs {
             let is_fn = self.t.chance(1, 2);
-            let ret = if is_fn { Some(*self.t.pick(&[Ty::Int, Ty::Long, Ty::Single, Ty::Double, Ty::Int])) } else { None };
+            let ret = if is_fn { Some(*self.t.pick(&[Ty::Int, Ty::Long, Ty::Single, Ty::Double, Ty::Str, Ty::Int])) } else { None };
             let name = match ret {
                 Some(t) => format!("Fn{}{}", k + 1, t.suffix()),
                 None => format!("Sb{}", k + 1),
@@ -921,7 +1018,7 @@ impl<'t, 'c> Gen<'t, 'c> {
             // shared variables are visible
             for g in main_scope.iter().filter(|g| self.shared_names.iter().any(|n| n == &g.name)) {
                 let idx = self.scope.len();
-                self.scope.push(ScopeVar { idx, name: g.name.clone(), sty: g.sty.clone(), bounds: vec![], reserved: false, readable: true });
+                self.scope.push(ScopeVar { idx, name: g.name.clone(), sty: g.sty.clone(), bounds: vec![], reserved: g.reserved, readable: true });
                 self.prog.procs[p].vars.push(VarInfo { name: g.name.clone(), sty: g.sty.clone(), bounds: vec![], shared: true });
             }
             self.callable = (0..p).collect();
@@ -951,7 +1048,7 @@ impl<'t, 'c> Gen<'t, 'c> {
             if let Some(rv) = self.prog.procs[p].result_var {
                 if self.t.chance(4, 5) {
                     let ty = self.prog.procs[p].ret.unwrap();
-                    let e = self.num_expr(ty, 1);
+                    let e = if ty == Ty::Str { self.bounded_str(1) } else { self.num_expr(ty, 1) };
                     let name = self.prog.procs[p].name.clone();
                     body.push(Stmt::Assign(LValue { name, var: rv, index: vec![], fields: vec![], sty: STy::B(ty) }, e));
                 }
@@ -959,7 +1056,10 @@ impl<'t, 'c> Gen<'t, 'c> {
             self.closing_print(&mut body);
             self.prog.procs[p].body = body;
         }
-        // optional recursive function (hand-built shape with generated parameters)
+        // optional recursive function (hand-built shapes with generated parameters): the recursive call sits in an
+        // ELSE block, inside a FOR body whose limit differs per activation, or inside a CASE expression that is
+        // followed by further CASE tests of the same SELECT (whatever a block construct keeps while it runs must be
+        // kept per activation)
         if self.t.chance(1, 2) {
             let p = self.prog.procs.len();
             let name = "Rec&".to_string();
@@ -967,18 +1067,80 @@ impl<'t, 'c> Gen<'t, 'c> {
             let acc = LValue { name: "ACC&".into(), var: 1, index: vec![], fields: vec![], sty: STy::B(Ty::Long) };
             let loc = LValue { name: "LOC%".into(), var: 2, index: vec![], fields: vec![], sty: STy::B(Ty::Int) };
             let res = LValue { name: name.clone(), var: 3, index: vec![], fields: vec![], sty: STy::B(Ty::Long) };
+            let j = LValue { name: "J%".into(), var: 4, index: vec![], fields: vec![], sty: STy::B(Ty::Int) };
+            let tv = LValue { name: "T&".into(), var: 5, index: vec![], fields: vec![], sty: STy::B(Ty::Long) };
             let k = *self.t.pick(&[2i64, 3, 1, 5]);
+            let shape = self.t.choose(4);
+            let n_minus_1 = || Expr::Bin(BinOp::Sub, Box::new(Expr::Load(n.clone())), Box::new(Expr::Lit(Lit::Whole(1))));
+            let by_value_acc = || Expr::Paren(Box::new(Expr::Load(acc.clone())));
+            let recursive_part: Vec<Stmt> = match shape {
+                0 | 1 => vec![
+                    Stmt::Assign(acc.clone(), Expr::Bin(BinOp::Add, Box::new(Expr::Load(acc.clone())), Box::new(Expr::Load(loc.clone())))),
+                    Stmt::Assign(res.clone(), Expr::Call(p, vec![n_minus_1(), Expr::Load(acc.clone())])),
+                    Stmt::Print(vec![PrintItem::E(Expr::Lit(Lit::Str("u".into()))), PrintItem::Semi, PrintItem::E(Expr::Load(loc.clone())), PrintItem::Semi, PrintItem::E(Expr::Load(acc.clone()))]),
+                ],
+                2 => {
+                    // FOR J% = a TO N% [STEP s]: the recursive call runs inside the body, the limit belongs to this activation
+                    let down = self.t.chance(1, 3);
+                    let (from, to, step) = if down { (Expr::Load(n.clone()), Expr::Lit(Lit::Whole(1)), Some(lit_i(-1))) } else { (Expr::Lit(Lit::Whole(1)), Expr::Load(n.clone()), if self.t.chance(1, 2) { Some(lit_i(1)) } else { None }) };
+                    vec![
+                        Stmt::For {
+                            var: j.clone(),
+                            from,
+                            to,
+                            step,
+                            body: vec![
+                                Stmt::Assign(acc.clone(), Expr::Bin(BinOp::Add, Box::new(Expr::Load(acc.clone())), Box::new(Expr::Load(loc.clone())))),
+                                Stmt::Assign(tv.clone(), Expr::Call(p, vec![n_minus_1(), by_value_acc()])),
+                                Stmt::Print(vec![PrintItem::E(Expr::Lit(Lit::Str("f".into()))), PrintItem::Semi, PrintItem::E(Expr::Load(j.clone())), PrintItem::Semi, PrintItem::E(Expr::Load(tv.clone()))]),
+                            ],
+                            next_names: self.t.chance(1, 2),
+                        },
+                        Stmt::Print(vec![PrintItem::E(Expr::Lit(Lit::Str("after".into()))), PrintItem::Semi, PrintItem::E(Expr::Load(j.clone()))]),
+                        Stmt::Assign(res.clone(), Expr::Bin(BinOp::Add, Box::new(Expr::Load(tv.clone())), Box::new(Expr::Load(loc.clone())))),
+                    ]
+                }
+                _ => {
+                    // SELECT CASE N%: an early CASE expression calls the function again, later CASE tests follow
+                    let off = *self.t.pick(&[1000i64, 0, 1]);
+                    let rec_item = Expr::Bin(BinOp::Add, Box::new(Expr::Call(p, vec![n_minus_1(), by_value_acc()])), Box::new(Expr::Lit(Lit::Whole(off))));
+                    let mut first_items = vec![CaseItem::Val(rec_item)];
+                    if self.t.chance(1, 2) {
+                        first_items.insert(0, CaseItem::Val(Expr::Lit(Lit::Whole(0))));
+                    }
+                    let self_item = match self.t.choose(3) {
+                        0 => CaseItem::Val(Expr::Load(n.clone())),
+                        1 => CaseItem::Range(Expr::Load(n.clone()), Expr::Load(n.clone())),
+                        _ => CaseItem::Is(BinOp::Eq, Expr::Load(n.clone())),
+                    };
+                    vec![
+                        Stmt::Select {
+                            subject: Expr::Load(n.clone()),
+                            cases: vec![
+                                (first_items, vec![Stmt::Print(vec![PrintItem::E(Expr::Lit(Lit::Str("m1".into()))), PrintItem::Semi, PrintItem::E(Expr::Load(n.clone()))]), Stmt::Assign(res.clone(), Expr::Lit(Lit::Whole(1)))]),
+                                (vec![CaseItem::Is(BinOp::Gt, Expr::Lit(Lit::Whole(100)))], vec![Stmt::Print(vec![PrintItem::E(Expr::Lit(Lit::Str("m2".into())))])]),
+                                (vec![self_item], vec![Stmt::Print(vec![PrintItem::E(Expr::Lit(Lit::Str("self".into()))), PrintItem::Semi, PrintItem::E(Expr::Load(n.clone()))]), Stmt::Assign(res.clone(), Expr::Bin(BinOp::Add, Box::new(Expr::Load(acc.clone())), Box::new(Expr::Load(loc.clone()))))]),
+                            ],
+                            else_: Some(vec![Stmt::Print(vec![PrintItem::E(Expr::Lit(Lit::Str("else".into()))), PrintItem::Semi, PrintItem::E(Expr::Load(n.clone()))])]),
+                        },
+                    ]
+                }
+            };
             let body = vec![
                 // a fresh local must read 0 in every activation
                 Stmt::Print(vec![PrintItem::E(Expr::Lit(Lit::Str("r".into()))), PrintItem::Semi, PrintItem::E(Expr::Load(n.clone())), PrintItem::Semi, PrintItem::E(Expr::Load(loc.clone()))]),
                 Stmt::Assign(loc.clone(), Expr::Bin(BinOp::Mul, Box::new(Expr::Load(n.clone())), Box::new(Expr::Lit(Lit::Whole(k))))),
                 Stmt::If {
-                    arms: vec![(Expr::Bin(BinOp::Le, Box::new(Expr::Load(n.clone())), Box::new(Expr::Lit(Lit::Whole(0)))), vec![Stmt::Assign(res.clone(), Expr::Load(acc.clone()))])],
-                    else_: Some(vec![
-                        Stmt::Assign(acc.clone(), Expr::Bin(BinOp::Add, Box::new(Expr::Load(acc.clone())), Box::new(Expr::Load(loc.clone())))),
-                        Stmt::Assign(res.clone(), Expr::Call(p, vec![Expr::Bin(BinOp::Sub, Box::new(Expr::Load(n.clone())), Box::new(Expr::Lit(Lit::Whole(1)))), Expr::Load(acc.clone())])),
-                        Stmt::Print(vec![PrintItem::E(Expr::Lit(Lit::Str("u".into()))), PrintItem::Semi, PrintItem::E(Expr::Load(loc.clone())), PrintItem::Semi, PrintItem::E(Expr::Load(acc.clone()))]),
-                    ]),
+                    arms: if shape == 2 {
+                        // the FOR shape multiplies the number of activations: large arguments restart at 4
+                        vec![
+                            (Expr::Bin(BinOp::Le, Box::new(Expr::Load(n.clone())), Box::new(Expr::Lit(Lit::Whole(0)))), vec![Stmt::Assign(res.clone(), Expr::Load(acc.clone()))]),
+                            (Expr::Bin(BinOp::Gt, Box::new(Expr::Load(n.clone())), Box::new(Expr::Lit(Lit::Whole(4)))), vec![Stmt::Assign(res.clone(), Expr::Call(p, vec![Expr::Lit(Lit::Whole(4)), by_value_acc()]))]),
+                        ]
+                    } else {
+                        vec![(Expr::Bin(BinOp::Le, Box::new(Expr::Load(n.clone())), Box::new(Expr::Lit(Lit::Whole(0)))), vec![Stmt::Assign(res.clone(), Expr::Load(acc.clone()))])]
+                    },
+                    else_: Some(recursive_part),
                 },
             ];
             let vars = vec![
@@ -986,6 +1148,8 @@ impl<'t, 'c> Gen<'t, 'c> {
                 VarInfo { name: "ACC&".into(), sty: STy::B(Ty::Long), bounds: vec![], shared: false },
                 VarInfo { name: "LOC%".into(), sty: STy::B(Ty::Int), bounds: vec![], shared: false },
                 VarInfo { name: name.clone(), sty: STy::B(Ty::Long), bounds: vec![], shared: false },
+                VarInfo { name: "J%".into(), sty: STy::B(Ty::Int), bounds: vec![], shared: false },
+                VarInfo { name: "T&".into(), sty: STy::B(Ty::Long), bounds: vec![], shared: false },
             ];
             let params = vec![Param { name: "N%".into(), var: 0, sty: STy::B(Ty::Int), array: false, extended: false }, Param { name: "ACC&".into(), var: 1, sty: STy::B(Ty::Long), array: false, extended: false }];
             self.prog.procs.push(Proc { name, ret: Some(Ty::Long), params, is_static: false, body, vars, result_var: Some(3) });
@@ -1175,7 +1339,7 @@ impl<'t, 'c> Gen<'t, 'c> {
         let inner_kind = *self.t.pick(&[2usize, 0, 1, 2]);
         let target_inside_outer = self.t.chance(2, 3);
         let trig = 1 + self.t.choose(2) as i64;
-        let jump = Stmt::IfLine { cond: b(BinOp::Eq, ld(&bb), lit_i(trig)), then_: Box::new(Stmt::Goto(label.clone())), else_: None };
+        let jump = Stmt::IfLine { cond: b(BinOp::Eq, ld(&bb), lit_i(trig)), then_: vec![Stmt::Goto(label.clone())], else_: None };
         let inner_body = vec![pr(vec![s_lit("i"), ld(&a), ld(&bb)]), jump];
         let inner: Vec<Stmt> = match inner_kind {
             0 => vec![Stmt::For { var: bb.clone(), from: lit_i(1), to: lit_i(3), step: None, body: inner_body, next_names: false }],
@@ -1227,7 +1391,7 @@ impl<'t, 'c> Gen<'t, 'c> {
         let arr = self.add_var("ARR%".into(), STy::B(Ty::Int), vec![(0, 2)], true);
         let mut cv = ControlVars { z, big, idx, n, small, sres, tres, arr, cnt, cf: None };
         let mut main: Vec<Stmt> = vec![];
-        main.push(Stmt::Dim(Dim { var: arr, name: "ARR%".into(), bounds: vec![(0, 2)], explicit_lower: false, sty: STy::B(Ty::Int), extended: false, shared: false }));
+        main.push(Stmt::Dim(Dim { var: arr, name: "ARR%".into(), bounds: vec![(0, 2)], explicit_lower: false, sty: STy::B(Ty::Int), extended: false, shared: false, redim: 0 }));
         main.push(Stmt::Assign(sentinel.clone(), lit_i(77)));
         // optionally: subprograms whose bodies hold a failing statement (handled by the module-level handler)
         let mut sub_ids: Vec<usize> = vec![];
@@ -1237,7 +1401,7 @@ impl<'t, 'c> Gen<'t, 'c> {
             for (nm, ty) in shared.iter() {
                 let gi = self.prog.vars.iter().position(|v| v.name == *nm).unwrap();
                 self.prog.vars[gi].shared = true;
-                main.push(Stmt::Dim(Dim { var: gi, name: nm.to_string(), bounds: vec![], explicit_lower: false, sty: STy::B(*ty), extended: false, shared: true }));
+                main.push(Stmt::Dim(Dim { var: gi, name: nm.to_string(), bounds: vec![], explicit_lower: false, sty: STy::B(*ty), extended: false, shared: true, redim: 0 }));
             }
             // helper function for failing statements nested in call arguments
             {
@@ -1400,7 +1564,7 @@ impl<'t, 'c> Gen<'t, 'c> {
                     main.push(Stmt::Label(l.clone()));
                     main.push(Stmt::Assign(cv.cnt.clone(), b(BinOp::Add, ld(&cv.cnt), lit_i(1))));
                     main.push(pr(vec![s_lit("k"), ld(&cv.cnt)]));
-                    main.push(Stmt::IfLine { cond: b(BinOp::Lt, ld(&cv.cnt), lit_i(3)), then_: Box::new(Stmt::Goto(l)), else_: None });
+                    main.push(Stmt::IfLine { cond: b(BinOp::Lt, ld(&cv.cnt), lit_i(3)), then_: vec![Stmt::Goto(l)], else_: None });
                 }
                 _ => {
                     // forward GOTO over a token; rarely a stray RETURN / RESUME
@@ -1481,6 +1645,9 @@ struct ArrInfo {
     name: String,
     bounds: Vec<(i32, i32)>,
     sty: STy,
+    /// declared with REDIM (may be re-dimensioned later)
+    dynamic: bool,
+    extended: bool,
 }
 
 impl<'t, 'c> Gen<'t, 'c> {
@@ -1604,22 +1771,24 @@ impl<'t, 'c> Gen<'t, 'c> {
                 }
             };
             let var = self.add_var(name.clone(), sty.clone(), bounds.clone(), true);
-            main.push(Stmt::Dim(Dim { var, name: name.clone(), bounds: bounds.clone(), explicit_lower: explicit, sty: sty.clone(), extended, shared: false }));
-            arrays.push(ArrInfo { var, name, bounds, sty });
+            // a third of the arrays are dynamic: created by REDIM and re-dimensioned later on
+            let dynamic = self.t.chance(1, 3);
+            main.push(Stmt::Dim(Dim { var, name: name.clone(), bounds: bounds.clone(), explicit_lower: explicit, sty: sty.clone(), extended, shared: false, redim: if dynamic { 1 } else { 0 } }));
+            arrays.push(ArrInfo { var, name, bounds, sty, dynamic, extended });
         }
         // scalars of record / fixed-string type
         let mut scalars: Vec<ArrInfo> = vec![];
         if self.t.chance(1, 2) {
             let n = 1 + self.t.choose(6) as u16;
             let var = self.add_var("FS1".into(), STy::Fixed(n), vec![], true);
-            main.push(Stmt::Dim(Dim { var, name: "FS1".into(), bounds: vec![], explicit_lower: false, sty: STy::Fixed(n), extended: true, shared: false }));
-            scalars.push(ArrInfo { var, name: "FS1".into(), bounds: vec![], sty: STy::Fixed(n) });
+            main.push(Stmt::Dim(Dim { var, name: "FS1".into(), bounds: vec![], explicit_lower: false, sty: STy::Fixed(n), extended: true, shared: false, redim: 0 }));
+            scalars.push(ArrInfo { var, name: "FS1".into(), bounds: vec![], sty: STy::Fixed(n), dynamic: false, extended: true });
         }
         if ntypes > 0 && self.t.chance(1, 2) {
             let ti = self.t.choose(ntypes);
             let var = self.add_var("RC1".into(), STy::Rec(ti), vec![], true);
-            main.push(Stmt::Dim(Dim { var, name: "RC1".into(), bounds: vec![], explicit_lower: false, sty: STy::Rec(ti), extended: true, shared: false }));
-            scalars.push(ArrInfo { var, name: "RC1".into(), bounds: vec![], sty: STy::Rec(ti) });
+            main.push(Stmt::Dim(Dim { var, name: "RC1".into(), bounds: vec![], explicit_lower: false, sty: STy::Rec(ti), extended: true, shared: false, redim: 0 }));
+            scalars.push(ArrInfo { var, name: "RC1".into(), bounds: vec![], sty: STy::Rec(ti), dynamic: false, extended: true });
         }
         // by-reference setters
         let set_types = [Ty::Int, Ty::Long, Ty::Single, Ty::Double, Ty::Str];
@@ -1632,10 +1801,26 @@ impl<'t, 'c> Gen<'t, 'c> {
             self.prog.procs.push(Proc { name: format!("Set{}", k + 1), ret: None, params, is_static: false, body, vars, result_var: None });
         }
         // operations
-        let all: Vec<ArrInfo> = arrays.iter().cloned().chain(scalars.iter().cloned()).collect();
+        let mut all: Vec<ArrInfo> = arrays.iter().cloned().chain(scalars.iter().cloned()).collect();
         let nops = 2 + self.t.choose(10);
         for _ in 0..nops {
-            let target = all[self.t.choose(all.len())].clone();
+            let ti = self.t.choose(all.len());
+            if all[ti].dynamic && self.t.chance(1, 3) {
+                // REDIM again (same number of dimensions, new bounds): every element starts afresh, the bounds are the new ones
+                let mut bounds = vec![];
+                let explicit = self.t.chance(2, 3);
+                for _ in 0..all[ti].bounds.len() {
+                    let lo = if explicit { self.t.range(-3, 3) as i32 } else { 0 };
+                    let extent = 1 + self.t.choose(if all[ti].bounds.len() == 3 { 3 } else { 4 }) as i32;
+                    bounds.push((lo, lo + extent - 1));
+                }
+                // an AS-typed array may be re-dimensioned in the short form `REDIM name(bounds)`
+                let short = all[ti].extended && self.t.chance(1, 2);
+                main.push(Stmt::Dim(Dim { var: all[ti].var, name: all[ti].name.clone(), bounds: bounds.clone(), explicit_lower: explicit, sty: all[ti].sty.clone(), extended: all[ti].extended, shared: false, redim: if short { 2 } else { 1 } }));
+                all[ti].bounds = bounds;
+                continue;
+            }
+            let target = all[ti].clone();
             let leaves = self.leaf_paths(&target.sty);
             let (fields, lsty) = leaves[self.t.choose(leaves.len())].clone();
             let idx_vals: Vec<i32> = target.bounds.iter().map(|(lo, hi)| {
@@ -1733,7 +1918,7 @@ impl<'t, 'c> Gen<'t, 'c> {
         }
         // final out-of-range access on a chosen face
         if !arrays.is_empty() && self.t.chance(1, 2) {
-            let a = arrays[self.t.choose(arrays.len())].clone();
+            let a = all[self.t.choose(arrays.len())].clone();
             let d = self.t.choose(a.bounds.len());
             let below = self.t.chance(1, 2);
             let leaves = self.leaf_paths(&a.sty);
